@@ -238,7 +238,9 @@ func main() {
 	}
 	for ri, rc := range runs {
 		cmd := exec.Command(bin, "--seed", strconv.FormatUint(args.Seed+uint64(ri), 10), "--ms", strconv.Itoa(rc.ms), "--mode", rc.mode, "--phase", rc.phase)
-		cmd.Env = append(os.Environ(), "GORACE=halt_on_error=0")
+		panicLog := filepath.Join(args.Out, fmt.Sprintf("panics_%d.log", ri))
+		os.Remove(panicLog)
+		cmd.Env = append(os.Environ(), "GORACE=halt_on_error=0", "VERIF_PANIC_LOG="+panicLog)
 		var so, se bytes.Buffer
 		cmd.Stdout, cmd.Stderr = &so, &se
 		done := make(chan error, 1)
@@ -310,6 +312,11 @@ func main() {
 				} else {
 					run.Hist("bytes:read")
 				}
+			case strings.HasPrefix(l, "NILREPLY ") && panicSites(panicLog) != "":
+				// the recovered panic's own stack names the site: one signature per (panic value, first
+				// hydraide frames), so that only that exact site can be a listed finding
+				idx := run.Add("(CQuiet 0 0)", map[string]interface{}{"run": tag, "line": l, "panic": panicSites(panicLog)}, false)
+				run.Violate(idx, "no request panics", clean("request_panicked_at:"+panicSites(panicLog)), tag+": "+l+" :: "+panicSites(panicLog))
 			case strings.HasPrefix(l, "NILREPLY "):
 				idx := run.Add("(CQuiet 0 0)", map[string]interface{}{"run": tag, "line": l}, false)
 				run.Violate(idx, "no request panics", clean("request_panicked:"+strings.TrimPrefix(l, "NILREPLY ")), tag+": "+l)
@@ -386,4 +393,52 @@ func main() {
 	}
 	run.Meta.Traces = len(runs)
 	run.Finish("check_all")
+}
+
+
+// panicSites summarises the recovered gateway panics a child run logged (rig.Quiet writes them to
+// VERIF_PANIC_LOG): for the first one, the panic class and the first two hydraide frames below
+// the panic, e.g. "nil_pointer:treasure.GetContentInt64<gateway.treasureToKeyValuePair".
+func panicSites(path string) string {
+	b, err := os.ReadFile(path)
+	if err != nil || len(b) == 0 {
+		return ""
+	}
+	txt := string(b)
+	class := "panic"
+	if strings.Contains(txt, "nil pointer dereference") {
+		class = "nil_pointer"
+	} else if strings.Contains(txt, "index out of range") {
+		class = "index_out_of_range"
+	} else if strings.Contains(txt, "concurrent map") {
+		class = "concurrent_map"
+	}
+	lines := strings.Split(txt, "\n")
+	var frames []string
+	after := false
+	for _, l := range lines {
+		if strings.HasPrefix(l, "panic(") {
+			after = true
+			continue
+		}
+		if !after || strings.HasPrefix(l, "\t") || !strings.Contains(l, "github.com/hydraide/hydraide/") {
+			continue
+		}
+		f := l[strings.LastIndex(l, "/")+1:]
+		if i := strings.Index(f, "("); i > 0 {
+			// strip the receiver type and the argument list: treasure.(*treasure).GetContentInt64(0x..) -> treasure.GetContentInt64
+			pkg := f[:strings.Index(f, ".")]
+			name := f[:strings.LastIndex(f, "(")]
+			name = name[strings.LastIndex(name, ".")+1:]
+			f = pkg + "." + name
+			if pkg == "treasure" && strings.HasPrefix(name, "GetContent") {
+				f = "treasure.GetContent*" // one family: every typed getter has the same check-then-read shape
+			}
+		}
+		frames = append(frames, f)
+		if len(frames) == 2 {
+			break
+		}
+	}
+	return class + ":" + strings.Join(frames, "<")
 }
